@@ -27,6 +27,13 @@ pub const KINDS: &[Kind] = &[
     Kind { name: "text200", status: 200, ct: Some("text/plain"), body: "hello" },
     Kind { name: "html400", status: 400, ct: Some("text/html"), body: "<html>" },
     Kind { name: "success400", status: 400, ct: J, body: r#"{"access_token":"tok","token_type":"bearer"}"# },
+    Kind { name: "pending203", status: 203, ct: J, body: r#"{"error":"authorization_pending"}"# },
+    Kind { name: "pending201", status: 201, ct: None, body: r#"{"error":"authorization_pending"}"# },
+    Kind { name: "pending302", status: 302, ct: J, body: r#"{"error":"authorization_pending"}"# },
+    Kind { name: "slow206", status: 206, ct: J, body: r#"{"error":"slow_down"}"# },
+    Kind { name: "slow101", status: 101, ct: None, body: r#"{"error":"slow_down"}"# },
+    Kind { name: "denied202", status: 202, ct: J, body: r#"{"error":"access_denied","error_description":"srv"}"# },
+    Kind { name: "success201", status: 201, ct: J, body: r#"{"access_token":"tok","token_type":"bearer"}"# },
 ];
 pub fn find(name: &str) -> Option<&'static Kind> {
     KINDS.iter().find(|k| k.name == name)
